@@ -37,11 +37,16 @@ TRUSTED = ["hand model lean/AwsVerif/Model/ThreadSched.lean (tied to thread_sche
            "harness/verif_atomics.h, harness/tsched.c, lean/Driver/ThreadSched.lean"]
 ASSUMPTIONS = ["sequentially consistent interleavings at lock / condition-variable / atomic / clock operations only "
                "(weak-memory reorderings and real time are not modelled)",
-               "task functions do not re-enter the scheduler; a task is scheduled at most once; every client thread owns a "
+               "a task is scheduled at most once (by client operations and task functions together); every client thread owns a "
                "reference while it uses the scheduler (so the release that reaches zero is the last action of the program set)",
+               "task functions may re-enter the scheduler (one schedule / cancel call per invocation); exactly-once and no-leak "
+               "are claimed for runs in which no task function invoked by the destroy callback - i.e. after the last reference "
+               "was released - re-enters (NoReentryAfterLastRelease; what the code does otherwise is recorded by "
+               "c08_reentry_after_last_release_loses_task / _leaks_record and only compared with the model)",
                "the inner aws_task_scheduler is abstracted (run-now list, timed set, scheduled flag); its own properties are C07"]
-RULE = ("1-3 client programs over {schedule_now, schedule_future(virtual start + delta), cancel, acquire, release, "
-        "virtual sleep}; schedules: seeded random (stay / spurious-wake-up rates varied) and, for small fixed scenarios, "
+RULE = ("1-3 client programs over {schedule_now, schedule_future(virtual start + delta | absolute limit stamps 0, 1, now-1, now, "
+        "now+1, UINT64_MAX-k), cancel, acquire, release, virtual sleep}, task functions that schedule / cancel when invoked with "
+        "RUN or CANCELED (re-entrant, in chains), an allocator that hands out dirty memory; schedules: seeded random (stay / spurious-wake-up rates varied) and, for small fixed scenarios, "
         "every schedule that deviates from run-to-block in at most 1 (quick) / 2 (thorough) places; non-trivial = at "
         "least one scheduled task and (a cancel or >= 2 clients); coverage.distinct_schedules counts distinct "
         "(programs, pick list) pairs; every schedule run is also replayed in the model (traces_validated_against_impl)")
@@ -57,8 +62,9 @@ def _fmt(ops):
     return " ".join(out)
 
 
+MAXT = "MAX"
 NAMED = [
-    # (name, [client programs])
+    # (name, [client programs], [task-function entries (task, R|C, op)], misuse-after-release stream?)
     ("sched;release", [[("sn", 0), ("rel",)]]),
     ("sched;cancel;release", [[("sn", 0), ("c", 0), ("rel",)]]),
     ("sched;sleep;cancel;release", [[("sn", 0), ("sl", 2000), ("c", 0), ("rel",)]]),
@@ -72,19 +78,82 @@ NAMED = [
     ("2 clients: acquire/release noise", [[("acq",), ("sn", 0), ("rel",), ("sl", 500), ("c", 0), ("rel",)],
                                           [("sf", 1, 10**11), ("rel",)]]),
     ("3 clients mixed", [[("sn", 0), ("rel",)], [("sn", 1), ("c", 1), ("rel",)], [("sf", 2, 2500), ("sl", 4000), ("c", 2), ("rel",)]]),
+    # time stamps at the limits: the only pending task(s) at the final release are at UINT64_MAX
+    ("UINT64_MAX;release", [[("sa", 0, MAXT), ("rel",)]]),
+    ("UINT64_MAX;handed over;release", [[("sa", 0, MAXT), ("sl", 2000), ("rel",)]]),
+    # (a stamp in [now + 2^63, UINT64_MAX - 1] makes s_thread_fn poll without waiting - `(int64_t)(next - now)` is
+    # negative -, and virtual time only moves when every thread is blocked: such stamps never meet a sleep here)
+    ("UINT64_MAX and MAX-1;release", [[("sa", 0, MAXT), ("sa", 1, "MAX-1"), ("rel",)]]),
+    ("UINT64_MAX + run-now;release", [[("sa", 0, MAXT), ("sn", 1), ("sl", 1000), ("rel",)]]),
+    ("limit stamps 0,1,now-1,now,now+1", [[("sa", 0, 0), ("sa", 1, 1), ("sa", 2, 999999999), ("sa", 3, 1000000000),
+                                          ("sa", 4, 1000000001), ("sl", 10), ("rel",)]]),
+    ("2 clients: UINT64_MAX each side", [[("sa", 0, MAXT), ("rel",)], [("sa", 1, "MAX-1"), ("c", 1), ("rel",)]]),
+    # re-entrant task functions (run by the scheduler thread)
+    ("cancelled task schedules a follow-up", [[("sa", 0, MAXT), ("sl", 100), ("c", 0), ("sl", 5000), ("rel",)]],
+     [(0, "C", ("sn", 16))]),
+    ("cancelled task cancels its sibling", [[("sa", 0, MAXT), ("sf", 1, 10**15), ("sl", 100), ("c", 0), ("sl", 5000), ("rel",)]],
+     [(0, "C", ("c", 1))]),
+    ("cancelled task schedules a timed follow-up that runs", [[("sf", 0, 10**12), ("c", 0), ("sl", 9000), ("rel",)]],
+     [(0, "C", ("sf", 16, 3000)), (16, "R", ("sn", 17))]),
+    ("run task schedules and cancels", [[("sn", 0), ("sf", 1, 10**11), ("sl", 5000), ("rel",)]],
+     [(0, "R", ("sf", 16, 2000)), (16, "R", ("c", 1)), (1, "C", ("sn", 17))]),
+    ("2 clients: re-entry while the other client schedules", [[("sn", 0), ("sl", 3000), ("rel",)], [("sn", 1), ("sn", 2), ("c", 2), ("sl", 3000), ("rel",)]],
+     [(0, "R", ("sn", 16)), (1, "R", ("c", 16)), (16, "R", ("sf", 17, 10**15))]),
+    # use after the last release (outside the property; only compared with the model)
+    ("misuse: cancelled-at-shutdown schedules", [[("sa", 0, MAXT), ("rel",)]], [(0, "C", ("sn", 16))], True),
+    ("misuse: cancelled-at-shutdown cancels", [[("sa", 0, MAXT), ("sa", 1, "MAX-1"), ("rel",)]], [(0, "C", ("c", 1))], True),
+    ("misuse: drained cancellation schedules", [[("sa", 0, MAXT), ("c", 0), ("rel",)]], [(0, "C", ("sn", 16))], True),
 ]
 
+
+def _named(i):
+    e = NAMED[i]
+    return e[0], e[1], (e[2] if len(e) > 2 else []), (e[3] if len(e) > 3 else False)
+
+
 # small scenarios explored exhaustively up to the preemption bound
-EXHAUSTIVE = [0, 1, 3, 5, 7, 8, 9]
-EXHAUSTIVE_THOROUGH = [0, 1, 3, 5, 7, 8, 9]
-EXHAUSTIVE_QUICK2 = [0, 1, 9]      # bound 2 already in the quick tier (short schedules)
+EXHAUSTIVE = [0, 1, 3, 5, 7, 8, 9, 12, 13, 17, 18, 19, 23, 25]
+EXHAUSTIVE_THOROUGH = [0, 1, 3, 5, 7, 8, 9, 12, 17, 18, 19, 22]
+EXHAUSTIVE_QUICK2 = [0, 1, 9, 12, 18]      # bound 2 already in the quick tier (short schedules)
+
+
+LIMIT_STAMPS = ["MAX", "MAX-1", "MAX-2", "MAX-3", 1, 2, 999999999, 1000000000, 1000000001, 1000000002]
+
+
+def _abs(v):
+    if isinstance(v, str):
+        return 2**64 - 1 - (int(v[4:]) if len(v) > 3 else 0)
+    return v
 
 
 def random_programs(rng):
+    """returns (programs, task-function entries, misuse-after-release stream?)"""
     n = rng.choice([1, 1, 2, 2, 2, 3])
     progs = []
     next_task = 0
-    deltas = rng.sample([500, 1500, 2500, 4000, 6000, 9000, 10**9, 10**12, 0, 1], 10)
+    used = set()          # absolute time stamps in use: timed tasks get distinct ones (the heap's order among equals is free)
+    spin = [False]        # a stamp in [now + 2^63, UINT64_MAX - 1] is in use: the thread polls, nobody may sleep
+    allow_spin = rng.random() < 0.3
+
+    def fresh_stamp():
+        for _ in range(50):
+            if rng.random() < 0.35:
+                v = rng.choice(LIMIT_STAMPS)
+                if isinstance(v, str) and v != "MAX":
+                    if not allow_spin:
+                        continue
+                    spin[0] = True
+                op = ("sa", v)
+                a = _abs(v)
+            else:
+                d = rng.choice([500, 1500, 2500, 4000, 6000, 9000, 10**9, 10**12, 0, 1]) + rng.randrange(0, 40)
+                op = ("sf", d)
+                a = START_NS + d
+            if a not in used:
+                used.add(a)
+                return op
+        return None
+
     for c in range(n):
         p = []
         mine = []
@@ -94,7 +163,9 @@ def random_programs(rng):
             if r < 0.30 and next_task < 12:
                 p.append(("sn", next_task)); mine.append(next_task); next_task += 1
             elif r < 0.55 and next_task < 12:
-                p.append(("sf", next_task, deltas[next_task % len(deltas)] + next_task)); mine.append(next_task); next_task += 1
+                st = fresh_stamp()
+                if st:
+                    p.append((st[0], next_task, st[1])); mine.append(next_task); next_task += 1
             elif r < 0.78 and mine:
                 p.append(("c", rng.choice(mine)))
             elif r < 0.90:
@@ -112,13 +183,61 @@ def random_programs(rng):
     if n >= 2 and rng.random() < 0.25 and next_task > 0:
         victim = rng.randrange(next_task)
         progs[rng.randrange(n)].insert(0, ("c", victim))
-    return progs
+    # task functions that re-enter the scheduler
+    cbs, misuse = [], False
+    fresh = [16]
+
+    def cb_op():
+        r = rng.random()
+        if r < 0.3 and next_task > 0:
+            return ("c", rng.randrange(next_task))
+        x = fresh[0]; fresh[0] += 1
+        if x >= 31:
+            return ("c", 0)
+        if r < 0.6:
+            return ("sn", x)
+        st = fresh_stamp()
+        return (st[0], x, st[1]) if st else ("sn", x)
+
+    if next_task > 0 and rng.random() < 0.45:
+        # invoked with RUN: always on the scheduler thread, may re-enter freely (also in chains)
+        for _ in range(rng.randint(1, 3)):
+            src = rng.choice(list(range(next_task)) + list(range(16, fresh[0])))
+            if not any(e[0] == src and e[1] == "R" for e in cbs):
+                cbs.append((src, "R", cb_op()))
+    if next_task < 12 and not allow_spin and rng.random() < 0.5:
+        # invoked with CANCELED through an explicit cancel: a far-future task, cancelled by its own thread, which then
+        # sleeps before it releases (so the scheduler thread has processed the cancellation while references exist)
+        c = rng.randrange(n)
+        t = next_task; next_task += 1
+        far = ("sa", t, "MAX") if _abs("MAX") not in used and rng.random() < 0.5 else ("sf", t, 10**15 + t)
+        a = _abs(far[2]) if far[0] == "sa" else START_NS + far[2]
+        if a not in used:
+            used.add(a)
+            k = len(progs[c]) - 1          # before the final release
+            while k > 0 and progs[c][k - 1][0] == "rel":
+                k -= 1
+            progs[c][k:k] = [far, ("sl", rng.choice([0, 100, 2000])), ("c", t), ("sl", 5000)]
+            cbs.append((t, "C", cb_op()))
+            if rng.random() < 0.3:
+                cbs.append((t, "R", cb_op()))          # never fires
+    if next_task > 0 and rng.random() < 0.08:
+        # use after the last release: any task may still be pending at the final release
+        t = rng.randrange(next_task)
+        if not any(e[0] == t and e[1] == "C" for e in cbs):
+            cbs.append((t, "C", cb_op()))
+            misuse = True
+    if spin[0]:
+        progs = [[o for o in p if o[0] != "sl"] for p in progs]
+    return progs, cbs, misuse
 
 
-def case_lines(progs, mode, seed=0, stay=50, spur=0, choices=None, picks=None, evs=None):
+def case_lines(progs, mode, seed=0, stay=50, spur=0, choices=None, picks=None, evs=None, cbs=()):
     ls = [f"cfg {len(progs)} {mode} {seed} {stay} {spur}"]
     for i, p in enumerate(progs):
         ls.append(f"prog {i} " + _fmt(p))
+    for (t, k, op) in cbs:
+        ls.append(f"cb {t} {k} " + " ".join(str(x) for x in op))
     if choices is not None:
         ls.append("choices " + " ".join(str(k) for k in choices))
     if picks is not None:
@@ -164,7 +283,8 @@ def _run_batch(exe, batch):
 
 def record(exe, specs, jobs=16):
     """specs: list of dict(progs, mode, seed, stay, spur, choices).  Returns list of (spec, picks|None, evs|None)."""
-    items = [(i, case_lines(s["progs"], s["mode"], s.get("seed", 0), s.get("stay", 50), s.get("spur", 0), s.get("choices")))
+    items = [(i, case_lines(s["progs"], s["mode"], s.get("seed", 0), s.get("stay", 50), s.get("spur", 0), s.get("choices"),
+                            cbs=s.get("cbs", ())))
              for i, s in enumerate(specs)]
     jobs = max(1, min(jobs, len(items)))
     chunks = [items[k::jobs] for k in range(jobs)]
@@ -192,64 +312,85 @@ def gen_cases(rng, tier):
     quick = tier == "quick"
     specs = []
     # 1. named scenarios under many seeds
-    for si, (name, progs) in enumerate(NAMED):
-        for _ in range(80 if quick else 500):
-            specs.append(dict(progs=progs, mode="seed", seed=rng.randrange(1, 2**31), stay=rng.choice([0, 30, 60, 85]),
-                              spur=rng.choice([0, 0, 50, 250]), name=name))
+    for si in range(len(NAMED)):
+        name, progs, cbs, misuse = _named(si)
+        for _ in range(60 if quick else 400):
+            specs.append(dict(progs=progs, cbs=cbs, misuse=misuse, mode="seed", seed=rng.randrange(1, 2**31),
+                              stay=rng.choice([0, 30, 60, 85]), spur=rng.choice([0, 0, 50, 250]), name=name))
     # 2. random program sets
     for _ in range(3000 if quick else 40000):
-        specs.append(dict(progs=random_programs(rng), mode="seed", seed=rng.randrange(1, 2**31),
+        progs, cbs, misuse = random_programs(rng)
+        specs.append(dict(progs=progs, cbs=cbs, misuse=misuse, mode="seed", seed=rng.randrange(1, 2**31),
                           stay=rng.choice([0, 30, 60, 85]), spur=rng.choice([0, 0, 50, 250]), name="random"))
     # 3. bounded-preemption enumeration: first the run-to-block schedule to learn its length
     ex_idx = EXHAUSTIVE
-    base = record(exe, [dict(progs=NAMED[i][1], mode="choices", choices=[], spur=0, stay=100) for i in ex_idx])
+    base = record(exe, [dict(progs=_named(i)[1], cbs=_named(i)[2], mode="choices", choices=[], spur=0, stay=100) for i in ex_idx])
     for (spec, picks, _), i in zip(base, ex_idx):
+        name, progs, cbs, misuse = _named(i)
         L = len(picks) if picks else 60
-        m = len(spec["progs"]) + 2
+        m = len(progs) + 2
         for p in range(L + 2):
             for k in range(1, m + 1):
-                specs.append(dict(progs=spec["progs"], mode="choices", choices=[0] * p + [k], stay=100, spur=0,
-                                  name="bound1:" + NAMED[i][0]))
+                specs.append(dict(progs=progs, cbs=cbs, misuse=misuse, mode="choices", choices=[0] * p + [k], stay=100, spur=0,
+                                  name="bound1:" + name))
         if (i in EXHAUSTIVE_QUICK2) or (not quick and i in EXHAUSTIVE_THOROUGH):
             for p in range(L + 2):
                 for k in range(1, m + 1):
                     for q in range(0, L + 6 - p):
                         for k2 in range(1, m + 1):
-                            specs.append(dict(progs=spec["progs"], mode="choices", choices=[0] * p + [k] + [0] * q + [k2],
-                                              stay=100, spur=0, name="bound2:" + NAMED[i][0]))
+                            specs.append(dict(progs=progs, cbs=cbs, misuse=misuse, mode="choices",
+                                              choices=[0] * p + [k] + [0] * q + [k2], stay=100, spur=0, name="bound2:" + name))
     cases = []
     for spec in specs:
         ops = case_lines(spec["progs"], spec["mode"], spec.get("seed", 0), spec.get("stay", 50), spec.get("spur", 0),
-                         spec.get("choices"))
-        cases.append(Case(ops, {"scenario": spec.get("name"), "mode": spec["mode"], "clients": len(spec["progs"])}))
+                         spec.get("choices"), cbs=spec.get("cbs", ()))
+        cases.append(Case(ops, {"scenario": spec.get("name"), "mode": spec["mode"], "clients": len(spec["progs"]),
+                                "reentrant": bool(spec.get("cbs")), "misuse_after_release": bool(spec.get("misuse"))}))
     return cases
 
 
 # ------------------------------------------------------------------ direct oracle (implementation output only)
+def _parse_ops(t, i):
+    ops = []
+    while i < len(t):
+        if t[i] in ("sn", "c", "sl"):
+            ops.append((t[i], int(t[i + 1]))); i += 2
+        elif t[i] in ("sf", "sa"):
+            ops.append((t[i], int(t[i + 1]), t[i + 2])); i += 3
+        else:
+            ops.append((t[i],)); i += 1
+    return ops
+
+
 def _programs(case):
     progs = {}
     for l in case.ops:
         t = l.split()
         if t and t[0] == "prog":
-            ops, i = [], 2
-            while i < len(t):
-                if t[i] in ("sn", "c", "sl"):
-                    ops.append((t[i], int(t[i + 1]))); i += 2
-                elif t[i] == "sf":
-                    ops.append(("sf", int(t[i + 1]), int(t[i + 2]))); i += 3
-                else:
-                    ops.append((t[i],)); i += 1
-            progs[int(t[1])] = ops
+            progs[int(t[1])] = _parse_ops(t, 2)
     return progs
+
+
+def _callbacks(case):
+    """{(task, 'RUN'|'CANCELED'): op}"""
+    cbs = {}
+    for l in case.ops:
+        t = l.split()
+        if t and t[0] == "cb" and len(t) >= 5:
+            ops = _parse_ops(t, 3)
+            if ops:
+                cbs[(int(t[1]), "RUN" if t[2] == "R" else "CANCELED")] = ops[0]
+    return cbs
 
 
 def oracle(case, lines):
     errs = []
     progs = _programs(case)
+    cbs = _callbacks(case)
     scheduled, cancelled = [], set()
     for p in progs.values():
         for o in p:
-            if o[0] in ("sn", "sf"):
+            if o[0] in ("sn", "sf", "sa"):
                 scheduled.append(o[1])
             elif o[0] == "c":
                 cancelled.add(o[1])
@@ -277,6 +418,21 @@ def oracle(case, lines):
         return errs
     if released[2] != 0:
         errs.append(f"{released[2]} task invocation(s) after the final release returned")
+    # what the task functions that fired did; a task function that re-entered while being invoked by the releasing
+    # thread used the scheduler after its last reference was released: outside the property (well-formedness clause
+    # NoReentryAfterLastRelease), such a run is only compared with the model
+    misuse = False
+    for task, status, thr, _ in inv:
+        op = cbs.get((task, status))
+        if op:
+            if thr != "S":
+                misuse = True
+            if op[0] in ("sn", "sf", "sa"):
+                scheduled.append(op[1])
+            else:
+                cancelled.add(op[1])
+    if misuse or case.tags.get("misuse_after_release"):
+        return errs
     if leak != 0:
         errs.append("allocator imbalance after the final release (leak)")
     by = released[1]
@@ -310,7 +466,8 @@ def oracle(case, lines):
 def nontrivial(case):
     progs = _programs(case)
     ops = [o for p in progs.values() for o in p]
-    return any(o[0] in ("sn", "sf") for o in ops) and (any(o[0] == "c" for o in ops) or len(progs) >= 2)
+    return any(o[0] in ("sn", "sf", "sa") for o in ops) and (any(o[0] == "c" for o in ops) or len(progs) >= 2
+                                                                or bool(_callbacks(case)))
 
 
 _LAST = {}
@@ -318,7 +475,8 @@ _LAST = {}
 
 def distribution(cases, c_out):
     _LAST["cases"], _LAST["c_out"] = cases, c_out     # extra_stages compares these outputs with the model
-    d = {"clients": {}, "mode": {}, "ops": {}, "RUN": 0, "CANCELED_by_thread": 0, "CANCELED_by_releaser": 0,
+    d = {"clients": {}, "mode": {}, "ops": {}, "reentrant_cases": 0, "misuse_after_release_stream": 0, "task_function_calls": 0,
+         "RUN": 0, "CANCELED_by_thread": 0, "CANCELED_by_releaser": 0,
          "events": 0, "lost_signals": 0, "timeouts": 0, "spurious": 0}
     for i, c in enumerate(cases):
         d["clients"][str(c.tags.get("clients"))] = d["clients"].get(str(c.tags.get("clients")), 0) + 1
@@ -327,6 +485,11 @@ def distribution(cases, c_out):
         for p in _programs(c).values():
             for o in p:
                 d["ops"][o[0]] = d["ops"].get(o[0], 0) + 1
+                if o[0] == "sa" and str(o[2]).startswith("MAX"):
+                    d["ops"]["sa_near_UINT64_MAX"] = d["ops"].get("sa_near_UINT64_MAX", 0) + 1
+        cbs = _callbacks(c)
+        d["reentrant_cases"] += 1 if cbs else 0
+        d["misuse_after_release_stream"] += 1 if c.tags.get("misuse_after_release") else 0
         for l in c_out.get(i, []):
             if l.startswith("W ev "):
                 d["events"] += 1
@@ -338,6 +501,8 @@ def distribution(cases, c_out):
                     d["spurious"] += 1
             elif l.startswith("P inv "):
                 t = l.split()
+                if cbs.get((int(t[2]), t[3])):
+                    d["task_function_calls"] += 1
                 if t[3] == "RUN":
                     d["RUN"] += 1
                 elif t[4] == "S":
@@ -356,7 +521,7 @@ def _model_input(case, lines):
             evs = l.split()[2:]
     if evs is None:
         return None
-    out = [l for l in case.ops if l.startswith(("cfg ", "prog "))]
+    out = [l for l in case.ops if l.startswith(("cfg ", "prog ", "cb "))]
     for k in range(0, max(len(evs), 1), 1000):
         out.append("evs " + " ".join(evs[k:k + 1000]))
     out.append("run")
@@ -428,7 +593,7 @@ def _compare(ctx, cases, c_out):
         if mod is None:
             continue
         validated += 1
-        distinct.add(hashlib.sha256(("\n".join(l for l in cases[i].ops if l.startswith("prog ")) + _picks(c_out[i])).encode()).hexdigest())
+        distinct.add(hashlib.sha256(("\n".join(l for l in cases[i].ops if l.startswith(("prog ", "cb "))) + _picks(c_out[i])).encode()).hexdigest())
         d = _first_diff(impl, mod)
         if d:
             drift.append((i, d))
@@ -484,13 +649,15 @@ MANIFEST = dict(
     design_ref="5.8",
     text=("Lean 4 theorems over a labelled transition system of thread_scheduler.c (scheduler thread with one program point "
           "per lock / condition-variable / atomic / clock operation of s_thread_fn, any number of client threads running "
-          "arbitrary well-formed programs of schedule_now / schedule_future / cancel / acquire / release, the destroy "
-          "callback on the releasing thread, lost and spurious wake-ups, timed waits that may always time out, a monotone "
+          "arbitrary well-formed programs of schedule_now / schedule_future / cancel / acquire / release, task functions "
+          "that re-enter the scheduler (schedule / cancel from inside an invocation, on the invoking thread, through the "
+          "hand-over mutex), the destroy callback on the releasing thread, lost and spurious wake-ups, timed waits that may always time out, a monotone "
           "virtual clock), proved for ALL interleavings by one inductive invariant: every scheduled task is in exactly one "
           "of hand-over queue / cancellation record / inner scheduler / invoked; invocations only on the scheduler thread or, "
           "as canceled, on the releasing thread; RUN never before its time; nothing after the final release returned; "
-          "at most once; exactly once at termination; no deadlock and no mutex held across a wait; every cancellation record "
-          "freed exactly once.  The pre-fix variants (no drain after join; unconditional cancel) are shown to violate "
+          "at most once; no task function invoked while the hand-over mutex is held; exactly once at termination; no deadlock "
+          "and no mutex held across a wait; every cancellation record freed exactly once (exactly-once / no-leak for runs "
+          "without re-entry after the last release).  The pre-fix variants (no drain after join; unconditional cancel) are shown to violate "
           "exactly-once / no-leak / at-most-once on explicit traces.  Tied to /repo by running the real thread scheduler "
           "(rebuilt from the working tree, atomics instrumented) under a deterministic serialising scheduler with virtual "
           "time (link-time --wrap of pthread and clock calls): seeded and bounded-preemption-exhaustive schedules, each "
